@@ -16,6 +16,7 @@
 //! beta0 = true (error-weight probe) pins the step-size controller parameters (safety factor 0.9, clamps, beta 0) through the builders.
 //! "span": |xend| (default 1; 1.3 with max_step = 1 gives a second, shortened landing step), "dense": false builds the low-level
 //! solver with dense_output(false), "xis": absolute evaluation points for Solution::sol.
+//! "xout": hex64 makes the recording SolOut answer ControlFlag::XOut(xout) from every callback (sparse-output mode of the low-level API).
 //! "resp": "poly" replaces the impulse probe by the time-dependent problem y_k' = t^k; "h0": |first step| (default 1).
 //! All floats cross the boundary as 16-hex-digit tokens of their bits (the *_f fields are informational).
 use ivp::dense::StepInterpolant;
@@ -83,6 +84,7 @@ impl IVP for Probe {
 }
 
 struct Recorder {
+    xout: Option<f64>, // sparse-output mode: every callback answers XOut(xout)
     thetas: Vec<f64>,
     dim: usize,
     events: Vec<Value>,
@@ -106,7 +108,10 @@ impl SolOut for Recorder {
         self.events.push(json!({"xold": tok(xold), "x": tok(*x), "x_f": fj(*x), "y": toks(y), "y_f": fjs(y),
                                 "has_interp": interpolant.is_some(), "dense": dense,
                                 "interp_xold": sp.map(|p| tok(p.0)), "interp_h": sp.map(|p| tok(p.1))}));
-        ControlFlag::Continue
+        match self.xout {
+            Some(xo) => ControlFlag::XOut(xo),
+            None => ControlFlag::Continue,
+        }
     }
 }
 
@@ -149,7 +154,7 @@ fn run_job(job: &Value) -> Value {
     let mut out = json!({"id": id, "api": api, "method": method, "dir": dir as i64, "dim": dim});
 
     if api == "lowlevel" {
-        let mut rec = Recorder { thetas: thetas.clone(), dim, events: Vec::new(), ncalls_at: Vec::new() };
+        let mut rec = Recorder { xout: job["xout"].as_str().map(untok), thetas: thetas.clone(), dim, events: Vec::new(), ncalls_at: Vec::new() };
         let r = catch(|| match method.as_str() {
             "RK4" => RK4::builder().dense_output(dense_on).build().solve(&probe, x0, &y0, xend, dir * h0, Some(&mut rec)),
             "RK23" => {
